@@ -23,4 +23,82 @@ theorem pkcs1_type2_roundtrip (ps m : Bytes) (h : ∀ b ∈ ps, b ≠ 0) (h8 : 8
 /-- MGF1 returns exactly the number of bytes asked for, for every hash with a non-empty output -/
 theorem mgf1_length_le (hash : Bytes → Bytes) (seed : Bytes) (len : Nat) : (mgf1 hash seed len).length ≤ len := by
   unfold mgf1; simp [List.length_take]; omega
+theorem flatMap_const_length {α : Type} (l : List α) (f : α → Bytes) (c : Nat) (h : ∀ x, (f x).length = c) : (l.flatMap f).length = l.length * c := by
+  induction l with
+  | nil => simp
+  | cons x xs ih => simp [List.flatMap_cons, h x, ih, Nat.succ_mul, Nat.add_comm]
+
+/-- MGF1 over a hash with a fixed, non-empty output length returns exactly the number of bytes asked for -/
+theorem mgf1_length (hash : Bytes → Bytes) (hLen : Nat) (h0 : 0 < hLen) (hh : ∀ x, (hash x).length = hLen) (seed : Bytes) (len : Nat) :
+    (mgf1 hash seed len).length = len := by
+  unfold mgf1
+  have hne : (hLen == 0) = false := by simpa using (Nat.pos_iff_ne_zero.mp h0)
+  simp only [hh, hne, Bool.false_eq_true, if_false]
+  rw [List.length_take, flatMap_const_length _ _ hLen (fun c => hh _), List.length_range]
+  have : len ≤ (len + hLen - 1) / hLen * hLen := by
+    have h1 := Nat.div_add_mod (len + hLen - 1) hLen
+    have h2 := Nat.mod_lt (len + hLen - 1) h0
+    rw [Nat.mul_comm] at h1
+    omega
+  omega
+
+theorem xorBytes_length (a b : Bytes) : (xorBytes a b).length = min a.length b.length := by simp [xorBytes]
+
+theorem xorBytes_involution (a b : Bytes) (h : a.length = b.length) : xorBytes (xorBytes a b) b = a := by
+  induction a generalizing b with
+  | nil => simp [xorBytes]
+  | cons x xs ih =>
+    cases b with
+    | nil => simp at h
+    | cons y ys =>
+      simp only [xorBytes, List.zipWith_cons_cons, List.cons.injEq]
+      refine ⟨?_, ih ys (by simpa using h)⟩
+      rw [UInt8.xor_assoc, UInt8.xor_self, UInt8.xor_zero]
+
+theorem dropWhile_zeros (n : Nat) (r : Bytes) : (List.replicate n (0 : UInt8) ++ 0x01 :: r).dropWhile (· == 0) = 0x01 :: r := by
+  induction n with
+  | zero => simp [List.dropWhile]
+  | succ n ih => simp [List.replicate_succ, List.dropWhile, ih]
+
+/-- **EME-OAEP round trip**: what the encoder makes of a message (any seed of hash length, any mask generation function that returns the number of bytes asked for) is decoded to exactly
+    that message - for every message that fits -/
+theorem oaep_roundtrip (hash mgfHash : Bytes → Bytes) (m seed : Bytes) (k : Nat)
+    (hmgf : ∀ s n, (mgf1 mgfHash s n).length = n) (hseed : seed.length = (hash []).length) (hfit : m.length + 2 * (hash []).length + 2 ≤ k) :
+    emeOaepDecode hash mgfHash (emeOaepEncode hash mgfHash m seed k) = some m := by
+  generalize hh : (hash []).length = hLen at *
+  have hdb : (hash [] ++ List.replicate (k - m.length - 2 * hLen - 2) 0 ++ [0x01] ++ m).length = k - hLen - 1 := by
+    simp [hh]; omega
+  unfold emeOaepEncode
+  simp only [hh]
+  generalize hdbdef : hash [] ++ List.replicate (k - m.length - 2 * hLen - 2) 0 ++ [0x01] ++ m = db at *
+  have hmdb : (xorBytes db (mgf1 mgfHash seed (k - hLen - 1))).length = k - hLen - 1 := by rw [xorBytes_length, hmgf, hdb]; simp
+  generalize hmd : xorBytes db (mgf1 mgfHash seed (k - hLen - 1)) = maskedDB at *
+  have hms : (xorBytes seed (mgf1 mgfHash maskedDB hLen)).length = hLen := by rw [xorBytes_length, hmgf, hseed]; simp
+  generalize hmsd : xorBytes seed (mgf1 mgfHash maskedDB hLen) = maskedSeed at *
+  unfold emeOaepDecode
+  simp only [hh]
+  have hlen : (0x00 :: maskedSeed ++ maskedDB).length = k := by simp [hms, hmdb]; omega
+  have hk : ¬ k < 2 * hLen + 2 := by omega
+  simp only [List.cons_append, List.length_cons, List.length_append, hms, hmdb]
+  have hk' : ¬ (hLen + (k - hLen - 1) + 1 < 2 * hLen + 2) := by omega
+  simp only [hk', if_false, List.headD_cons, List.drop_succ_cons, List.drop_zero]
+  have htake : (maskedSeed ++ maskedDB).take hLen = maskedSeed := by rw [List.take_append_of_le_length (by omega)]; rw [List.take_of_length_le (by omega)]
+  have hdrop : (maskedSeed ++ maskedDB).drop hLen = maskedDB := by rw [List.drop_append_of_le_length (by omega)]; rw [List.drop_of_length_le (by omega)]; simp
+  have hdrop1 : (0x00 :: (maskedSeed ++ maskedDB)).drop (1 + hLen) = maskedDB := by rw [Nat.add_comm]; simpa using hdrop
+  rw [htake, hdrop1]
+  have hseed' : xorBytes maskedSeed (mgf1 mgfHash maskedDB hLen) = seed := by
+    rw [← hmsd]; exact xorBytes_involution _ _ (by rw [hmgf, hseed])
+  rw [hseed']
+  have hklen : hLen + (k - hLen - 1) + 1 - hLen - 1 = k - hLen - 1 := by omega
+  rw [hklen]
+  have hdb' : xorBytes maskedDB (mgf1 mgfHash seed (k - hLen - 1)) = db := by
+    rw [← hmd]; exact xorBytes_involution _ _ (by rw [hmgf, hdb])
+  rw [hdb', ← hdbdef]
+  have ht : (hash [] ++ List.replicate (k - m.length - 2 * hLen - 2) 0 ++ [0x01] ++ m).take hLen = hash [] := by
+    rw [List.append_assoc, List.append_assoc, List.take_append_of_le_length (by omega), List.take_of_length_le (by omega)]
+  have hd : (hash [] ++ List.replicate (k - m.length - 2 * hLen - 2) 0 ++ [0x01] ++ m).drop hLen = List.replicate (k - m.length - 2 * hLen - 2) 0 ++ 0x01 :: m := by
+    rw [List.append_assoc, List.append_assoc, List.drop_append_of_le_length (by omega), List.drop_of_length_le (by omega)]; simp
+  rw [ht, hd, dropWhile_zeros]
+  simp
+
 end Shm.Crypto
